@@ -81,6 +81,23 @@ fn limb_carry_base(p: u32, b: u32, below: bool) -> Option<(u128, u128)> {
     debug_assert!(a.wrapping_mul(inv) & mask == 1);
     Some((if below { inv.wrapping_neg() & mask } else { inv }, mask))
 }
+/// does the decimal fraction `digits` (ASCII) put a p-digit group on a b-bit limb boundary, i.e. does adding the
+/// second group to `first group * 10^p` carry out of (or come within 10^p of) the b-bit limb? (classification only)
+pub fn on_limb_boundary(digits: &[u8], p: u32, b: u32) -> bool {
+    let p_us = p as usize;
+    if digits.len() <= p_us || p > 38 {
+        return false;
+    }
+    let val = |d: &[u8]| d.iter().fold(0u128, |a, c| a.wrapping_mul(10).wrapping_add((c - b'0') as u128));
+    let h = val(&digits[..p_us]);
+    let mut second: Vec<u8> = digits[p_us..digits.len().min(2 * p_us)].to_vec();
+    second.resize(p_us, b'0');
+    let l = val(&second);
+    let mask = if b >= 128 { u128::MAX } else { (1u128 << b) - 1 };
+    let hp = h.wrapping_mul(10u128.pow(p)) & mask;
+    let (sum, carry) = hp.overflowing_add(l);
+    carry || (b < 128 && sum >> b != 0) || hp <= 10u128.pow(p)
+}
 pub const LIMB_GROUPS: [(u32, u32); 6] = [(27, 128), (27, 128), (27, 128), (19, 64), (13, 64), (9, 32)];
 
 /// fraction digits `group(h) ++ suffix` from the limb-boundary class; falls back to random digits
